@@ -24,11 +24,11 @@ CLAIMED = {
    text="per-call step: Server::handle_call writes nothing for a oneway call, hands back a stream without writing, or performs exactly one write of one final reply / error frame on the calling connection's writer; plus the connection bookkeeping statements of Server::run (extracted fragments): after a call the connection is kept (Ok(None)), parked with its stream, or dropped on read/write failure - exactly that connection, no other moves; after a stream item nothing moves, at stream end exactly that connection returns to the call list, on write failure only that subscription is dropped",
    note="NOT decided: ordering across iterations and multi-connection routing live in the select_biased! loop of Server::run (macro, awaits, unsafe reborrow) - only its straight-line statements are under contract; service answer arbitrary; send_* via contracts proved in write_path"),
  "C18": dict(cat="model_checking", ref="5 C18", tech="bounded stand-in: Kani/CBMC harnesses over the real select_all.rs via #[path], n <= 5 futures, all other inputs fully symbolic",
-   text="BOUNDED (n <= 5 futures, quick n <= 3): for every start index (all 2^64+1 Option<usize> values) and every readiness vector the real SelectAll::poll polls in rotation order s, s+1, ... each at most once, returns the first ready one, Pending iff none; and with the server's 'start at winner+1' glue the same connection does not win twice while another is ready",
+   text="BOUNDED (n <= 5 futures, quick n <= 3): for every start index (all 2^64+1 Option<usize> values) and every readiness vector the real SelectAll::poll polls in rotation order s, s+1, ... each at most once, returns the first ready one, Pending iff none; and with the server's 'start at winner+1' glue the same connection does not win twice while another is ready; Verus additionally proves the glue statements of Server::run (winner recorded for every call, next start = winner + 1) and get_next_call (round starts exactly at the caller's index over one future per connection in list order)",
    note="bounded in n, labelled bounded, never counted as proved; Verus cannot ingest impl Future for SelectAll; Server::run glue replicated in the harness; swap_remove reordering across closures not covered"),
  "C19": dict(cat="proof", ref="5 C19", tech=TECH + "; cancel-point assertion for the abandoned-send clause",
-   text="the two transport adapters of zlink-tokio and zlink-smol: ReadHalf::read is a pass-through of the runtime read; WriteHalf::write hands the runtime exactly buf, in order, nothing else (loop invariant sent = buf[..pos], termination given n >= 1), a prefix on error. Listeners built from an inherited descriptor register a non-blocking descriptor (both crates). The abandoned-send clause is a cancel-point obligation in the write loop; it FAILS in both crates and is reported as two KNOWN-FINDINGs (reproduced on real sockets by replay_rt)",
-   note="assumed: kernel FIFO and runtime write/read contracts (trusted leaves); composition with C01/C02 on paper; async-io / tokio constructor preconditions assumed from their docs; bind, connection ids, bidirectional concurrency not decided"),
+   text="the two transport adapters of zlink-tokio and zlink-smol: ReadHalf::read is a pass-through of the runtime read; WriteHalf::write hands the runtime exactly buf, in order, nothing else (loop invariant sent = buf[..pos], termination given n >= 1), a prefix on error. Listeners built from an inherited descriptor register a non-blocking descriptor (both crates); Connection::new takes its id from one atomic fetch_add and gives both halves the same id. The abandoned-send clause is a cancel-point obligation in the write loop; it FAILS in both crates and is reported as two KNOWN-FINDINGs (reproduced on real sockets by replay_rt)",
+   note="assumed: kernel FIFO and runtime write/read contracts (trusted leaves); composition with C01/C02 on paper; async-io / tokio constructor preconditions assumed from their docs; uniqueness of fetch_add results assumed (hardware atomicity, wrap after 2^64); bind and bidirectional concurrency not decided"),
  "C13": dict(cat="proof", ref="5 C13", tech=TECH,
    text="hand-written part of the parser, for ALL byte strings: the scanners ws (skips exactly the grammar's `_` production), whitespace_only, bytes_to_str, field_name, type_name, interface_name and the look-ahead of inline_type never index out of bounds, never unwrap an Err, terminate, consume exactly the returned token, fail only when no legal token starts the input, and the token is maximal and in its Varlink class; the field loops of type_def and parameter_list terminate and drop no parsed name; method_def / error_def only consume; parse_from_str accepts only when nothing but whitespace/comments remains",
    note="NOT decided: everything built from winnow combinators (alt, separated): the type grammar, interface_def's member loop, comment_def, source order; winnow leaves (multispace0, literal, take_while), from_utf8, position/contains and the IDL node constructors are assumed stubs; underscore placement in field names is a known finding"),
